@@ -90,9 +90,11 @@ def run(ctx, drv):
                     binp = dict(inp, batch_flags=flags)
                     if b["calls"] > b["nfe_after"] - b["nfe_before"]:
                         ctx.fail("counter-smaller-than-real-calls", binp, b["nfe_after"] - b["nfe_before"], f">= {b['calls']}", "core.Algorithm.evaluate_all")
-                    if b["calls"] != flags.count(False):
-                        ctx.fail("evaluated-solution-evaluated-again" if b["calls"] > flags.count(False) else "unevaluated-solution-not-evaluated",
-                                 binp, b["calls"], flags.count(False), "core.Algorithm.evaluate_all")
+                    if b["calls"] > flags.count(False):
+                        # more calls than members that needed one: somebody already evaluated was evaluated again.  (Fewer calls than
+                        # unevaluated members is not against this property -- identical decision vectors may share one call; whether
+                        # every member then carries the right values is C01 -- it only breaks the model of the bookkeeping below.)
+                        ctx.fail("evaluated-solution-evaluated-again", binp, b["calls"], flags.count(False), "core.Algorithm.evaluate_all")
                     ask("evalall " + wlist(flags, lambda f: "1" if f else "0"),
                         lambda g, b=b, binp=binp: None if g == f"{b['calls']} {b['nfe_after'] - b['nfe_before']}"
                         else ctx.disagree("evaluate_all bookkeeping (calls, counter increment)", binp, f"{b['calls']} {b['nfe_after'] - b['nfe_before']}", g))
